@@ -13,7 +13,7 @@ RULE = ('every (version, level, mode) capacity boundary of the independent capac
 ASSUMPTIONS = common.ASSUME_QR + ['multi-part content: a version is accepted if it is minimal under either segmentation (DESIGN 4.1)']
 REQUIRED = ['evaluations', 'encode_observed', 'symbols_decoded', 'boundary_cases', 'overflow_expected_and_raised',
             'requested_version_accepted']
-TIMEOUT = {'quick': 900, 'thorough': 7200}
+TIMEOUT = {'quick': 3600, 'thorough': 21600}
 
 
 def gen_cases(tier, seed):
